@@ -52,7 +52,7 @@ Lemma runw_writer_err B s w :
 Proof. reflexivity. Qed.
 
 Theorem runw_stream_counted B (HB : (32 <= B)%nat) f t s rest w :
-  (t = tBlobString \/ t = tVerbatim) -> (zlen s < two63)%Z ->
+  (t = tBlobString \/ t = tVerbatim) -> (zlen s + 2 < two63)%Z ->
   exists w',
     runw B (stream_to (S f)) (enc (VBlob t s) ++ rest) w =
       ((zlen (accepted w s), (if w_failed (snd (w_write w s)) then SErr eWriter else SNone), true), rest, w') /\
@@ -81,6 +81,7 @@ Proof.
     set (w' := snd (w_write w s)). set (d := accepted w s).
     rewrite (runw_bind_eq B _ _ _ _ _ _ _ (runw_writer_err B _ w')).
     pose proof (accepted_len w s) as Hd. fold d in Hd.
+    rewrite (wrap64_small_z (zlen s - zlen d + 2)) by (unfold zlen, two63 in *; lia).
     assert (Edis : runw B (do_op (ODiscard (zlen s - zlen d + 2))) (skipn (length d) s ++ crlf ++ rest) w' = (Ok [], rest, w')).
     { rewrite app_assoc. apply runw_discard. rewrite app_length, skipn_length. cbn [crlf length]. unfold zlen. lia. }
     exists w'. split; [|apply out_after_write].
